@@ -142,8 +142,10 @@ package app
 //@ func (p *Process) startProbes
 //@   assigns abool(p.liveProber.stopped), abool(p.readyProber.stopped), spawned[*]
 
+//@ ghost sendAtRuns() int
 //@ func (p *Process) notifyDaemonStopped
 //@   ensures sends() == old(sends()) + ite(p.procConf.IsDaemon, 1, 0)
+//@   sets sendAtRuns() := runs()
 //@   assigns sends()
 
 //@ func (p *Process) isDaemonLaunched
@@ -232,7 +234,9 @@ package app
 //@   ensures atmost: stops() <= old(stops()) + 1 && stops() >= old(stops())
 //@   ensures kill-iff-failed: stops() == old(stops()) + 1 <==> lastRunFailed()
 //@   ensures kill: stops() == old(stops()) + 1 ==> stopSig(old(stops())) == 9
-//@   assigns runs(), ranEnv(), ranDir(), lastRunFailed(), lastProcEnv(), lastEnviron(), stops(), stopSig(stops()), stopParentOnly(stops()), ctxCount(), lastTimeout(), slept(), sends(), cancelCalls[*]
+//@   ensures daemon-notified: sends() == old(sends()) + ite(p.procConf.IsDaemon, 1, 0)
+//@   ensures notified-after-command: sendAtRuns() == runs()
+//@   assigns runs(), ranEnv(), ranDir(), lastRunFailed(), lastProcEnv(), lastEnviron(), stops(), stopSig(stops()), stopParentOnly(stops()), ctxCount(), lastTimeout(), slept(), sends(), sendAtRuns(), cancelCalls[*]
 
 //@ func (p *Process) stopProcess
 //@   requires procWF(p) && unlocked(p)
@@ -448,6 +452,7 @@ package app
 //@   ensures flagged: !p.isOrderedShutDown ==> (forall k string :: k in p.runningProcesses ==> abool(p.runningProcesses[k].isStopped))
 //@   ensures stop-requested: !p.isOrderedShutDown ==> (forall k string :: k in p.runningProcesses ==> cancelled(p.runningProcesses[k].procRunCtx))
 //@   ensures app-cancelled: cancelled(cancelOf(p.cancelAppFn))
+//@   ensures exit-code-stable: old(p.exitCodeSet) ==> p.exitCodeSet && p.exitCode == old(p.exitCode)
 //@   ensures nolocks: noLocks()
 //@   sets shutdownCalls() := shutdownCalls() + 1
 //@   after slices.Reverse assert reversed-nn: forall i int {shutdownOrder[i]} :: 0 <= i && i < len(shutdownOrder) ==> shutdownOrder[i] != nil
@@ -463,10 +468,11 @@ package app
 //@   loop 2 invariant idx >= -1
 //@   loop 3 invariant idx >= -1 && held(p.runProcMutex) && (forall m ref :: m != addr(p.runProcMutex) ==> !held(m))
 //@   loop 3 invariant forall j int :: 0 <= j && j <= idx ==> abool(shutdownOrder[j].isStopped)
-//@   assigns everything_but starts[*], gateOpen[*], wasSkipped[*], app.ProjectRunner.exitCode[*], app.ProjectRunner.exitCodeSet[*], types.RestartPolicyConfig.Restart[*], types.RestartPolicyConfig.ExitOnEnd[*], types.RestartPolicyConfig.ExitOnSkipped[*], app.ProjectRunner.runningProcesses[*], app.ProjectRunner.doneProcesses[*], heap(MapDom.Str), heap(MapVal.Str.ptr.app.Process), types.ProcessConfig.ReplicaName[*]
+//@   assigns everything_but starts[*], gateOpen[*], wasSkipped[*], types.RestartPolicyConfig.Restart[*], types.RestartPolicyConfig.ExitOnEnd[*], types.RestartPolicyConfig.ExitOnSkipped[*], app.ProjectRunner.runningProcesses[*], app.ProjectRunner.doneProcesses[*], heap(MapDom.Str), heap(MapVal.Str.ptr.app.Process), types.ProcessConfig.ReplicaName[*]
 
 // the visitor of the ordered branch only ever appends well-formed registered processes
 //@ func (p *ProjectRunner) ShutDownProject$1
+//@   ensures listed: process.ReplicaName in p.runningProcesses ==> inOrder(shutdownOrder, p.runningProcesses[process.ReplicaName])
 //@   preserves wf: runnerWF(p)
 //@   preserves listwf: listWF(shutdownOrder)
 
